@@ -162,6 +162,12 @@ func checkC11(c *Ctx, r *Report) {
 	// a reply that was rejected as belonging to another command — is never handed to the caller
 	// (rule shared with C04, C10, C13)
 	checkRetryFailureReturned(c, r)
+
+	// a reply that does not match is discarded and the command re-sent — it does not end the
+	// command with the matching reply still on its way (which would become the next command's
+	// stray, and so on): the classification of every exit of the send operations (shared with
+	// C10, C13)
+	checkClosureExits(c, r)
 }
 
 // checkReplyMatchesRequest: rule shared by C11 (a reply to another command is not taken for
